@@ -6,6 +6,7 @@ import (
 	"math/rand"
 	"os"
 	"path/filepath"
+	"runtime/pprof"
 	"sync"
 	"time"
 
@@ -315,6 +316,12 @@ func ChildDamage(args []string) int {
 	var job DamageJob
 	ReadJob(args[0], &job)
 	root := Guard(job.Scratch)
+	if pf := os.Getenv("C20_CPUPROFILE"); pf != "" { // development aid
+		if f, err := os.Create(pf); err == nil {
+			pprof.StartCPUProfile(f)
+			defer pprof.StopCPUProfile()
+		}
+	}
 	out := DamageOut{Payload: job.Payload}
 	p, err := job.Payload.Make()
 	if err != nil {
